@@ -165,6 +165,16 @@ CLAIMED['C15'] = dict(
     technique='function contract with loop contract and ghost output pixel, enforced by CBMC DFCC on the extracted real body; partitioned over the boundary option',
     design='4/C15')
 
+CLAIMED['C11'] = dict(
+    text='Partial (GIL-owned decoders). Loop-contract proof that the PNM text token loop keeps every write inside its 16-byte buffer for EVERY byte sequence the '
+         'device can deliver and terminates (variant: bytes remaining); contract proof that the BMP row pitch (reader and scanline reader) is a multiple of 4 and at '
+         'least the bytes the row decoders consume, for every width <= 2^24 and every accepted bit depth (1,4,8,15,16,24,32). Bounded native stand-in (ASan/UBSan): '
+         'crafted PNM/BMP byte sequences through the real read_image.',
+    note=TRUST + 'PNG/JPEG/TIFF (external libraries), TARGA, RLE state machines, palette indexing, header validation and the template drivers are not under contract; '
+         'bytes consumed per BMP row are read off the row decoders (assumed).',
+    technique='loop contract (invariant + decreases) and function contracts enforced by CBMC DFCC on extracted statement blocks of the real decoders; bounded native sanitizer window',
+    design='4/C11')
+
 NOT_APPLICABLE = {
     'C12': 'relates two whole template pipelines through a file/stream and external C libraries; no function contract within reach of a C verifier states what read_image returns after write_view (DESIGN 5)',
     'C13': 'equality of results of different compositions of reader classes/devices/policies over the same bytes is a relational property over I/O histories, not a pre/postcondition of an extractable function (DESIGN 5)',
